@@ -7,12 +7,16 @@
    search returned (observation kind 62) and [check_transpose] on the searched
    adjacency (kind 63); the theorems below turn a passed check into "the value
    the model reports is the closeness of that node", for every graph.
-   The full statement that would make the per-case check unnecessary,
-     forall g src, sssp lw weighted a src = Some sp -> (sp holds the true distances),
-   i.e. correctness of the model's own BFS / Dijkstra loops, is not proved here. *)
+   HOP-COUNT MODE is additionally proved without any per-case check: the model's
+   level-synchronous BFS returns exactly the reachable nodes with their hop distances
+   (loop invariant, Proofs/ClosenessBfsOk.v), its fuel is never exhausted, and the
+   value computed from it is the closeness (theorems C06_bfs_... and C06_hop_count_...).
+   Still per-case only (kinds 62/63): the weighted (heap) search — full statement
+     forall g src, sssp_weighted lw a src = Some sp -> (sp holds the true distances) —
+   and that `reverse()` yields the transposed adjacency (C15 territory). *)
 From Coq Require Import List Bool ZArith Arith QArith.
 From GV Require Import Base.Outcome Base.AMap Model.GState Model.Query Model.Derived Model.Cent Model.Brandes Model.Closeness.
-From GV Require Import Spec.ClosenessDef Proofs.ClosenessOk.
+From GV Require Import Spec.ClosenessDef Proofs.ClosenessOk Proofs.ClosenessBfsOk.
 Import ListNotations.
 
 (* a vector accepted by the checker holds, for every node, the true shortest
@@ -68,3 +72,46 @@ Theorem C06_one_entry_per_node : forall (T A : Type) (teqb tltb : T -> T -> bool
   exists tg, (if directed (sp g) then reverse teqb tltb g = Ok tg else tg = g) /\
              length m = number_of_nodes tg.
 Proof. intros T A. exact (@closeness_entries T A). Qed.
+
+(* ---- hop-count mode: the model's own BFS loop, for every graph and source ---- *)
+
+(* the returned list holds exactly the nodes reachable from src, each once, with its hop distance *)
+Theorem C06_bfs_distances : forall (g : qadj) (src : nat) (sp : list (nat * Q)),
+  adj_ok (length g) g = true -> (src < length g)%nat ->
+  sssp_unweighted g src = Some sp ->
+  forall w z, In (w, inject_Z z) sp <-> is_dist (unit_z g) src w z.
+Proof. intros g src sp H1 H2 H3. exact (bfs_distances g src H1 H2 sp H3). Qed.
+
+Theorem C06_bfs_entries_wellformed : forall (g : qadj) (src : nat) (sp : list (nat * Q)),
+  adj_ok (length g) g = true -> (src < length g)%nat ->
+  sssp_unweighted g src = Some sp ->
+  NoDup (map fst sp) /\ forall v q, In (v, q) sp -> exists z, q = inject_Z z.
+Proof. intros g src sp H1 H2 H3. exact (bfs_entries_wellformed g src H1 H2 sp H3). Qed.
+
+(* the fuel passed by the model is never exhausted *)
+Theorem C06_bfs_total : forall (g : qadj) (src : nat),
+  adj_ok (length g) g = true -> (src < length g)%nat ->
+  exists sp, sssp_unweighted g src = Some sp.
+Proof. exact sssp_unweighted_total. Qed.
+
+(* BFS + formula: the hop-count closeness of src in the graph whose adjacency a0 is the
+   transpose of the searched one *)
+Theorem C06_hop_count_closeness : forall (g : qadj) (src : nat) (sp : list (nat * Q)),
+  adj_ok (length g) g = true -> (src < length g)%nat ->
+  sssp_unweighted g src = Some sp ->
+  forall (a0 : zadj) wf,
+  (forall v w c, In (w, c) (zrow a0 v) <-> In (v, c) (zrow (unit_z g) w)) -> length a0 = length g ->
+  exists cc, get_node_centrality sp (length g) wf = Ok cc /\ is_closeness a0 src wf cc.
+Proof. intros g src sp H1 H2 H3. exact (bfs_closeness g src H1 H2 sp H3). Qed.
+
+Theorem C06_hop_count_model_value : forall (T A : Type) lw wf (tg : gstate T A) (a : qadj) (a0 : zadj) src nm cc,
+  adj_ok (length a) a = true -> (src < length a)%nat ->
+  closeness_one lw false wf tg a (length a) src = Ok (nm, cc) ->
+  (forall v w c, In (w, c) (zrow a0 v) <-> In (v, c) (zrow (unit_z a) w)) -> length a0 = length a ->
+  is_closeness a0 src wf cc.
+Proof. intros T A. exact (@hop_model_value T A). Qed.
+
+Theorem C06_hop_count_no_fuel_exhaustion : forall (T A : Type) lw wf (tg : gstate T A) (a : qadj) src,
+  adj_ok (length a) a = true -> (src < length a)%nat ->
+  closeness_one lw false wf tg a (length a) src <> OutOfFuel.
+Proof. intros T A. exact (@hop_model_no_fuel_exhaustion T A). Qed.
